@@ -6,7 +6,7 @@ from hashlib import pbkdf2_hmac
 from typing import TYPE_CHECKING
 
 from libpass._salt import generate_salt_by_entropy
-from libpass._utils.bytes import as_bytes, as_str
+from libpass._utils.bytes import as_bytes, hash_as_str
 from libpass._utils.deprecated import ab64_decode, ab64_encode
 from libpass.hashers.abc import PasswordHasher
 from libpass.inspect.pbkdf2 import (
@@ -61,11 +61,11 @@ class PBKDF2SHAHandler(PasswordHasher):
 
     def identify(self, hash: StrOrBytes) -> bool:
         return (
-            inspect_pbkdf2_hash(hash=as_str(hash), cls=self.HASH_INFO_CLS) is not None
+            inspect_pbkdf2_hash(hash=hash_as_str(hash), cls=self.HASH_INFO_CLS) is not None
         )
 
     def verify(self, hash: StrOrBytes, secret: StrOrBytes) -> bool:
-        hash = as_str(hash)
+        hash = hash_as_str(hash)
         hash_info = inspect_pbkdf2_hash(hash=hash, cls=self.HASH_INFO_CLS)
         if not hash_info:
             return False
@@ -81,7 +81,7 @@ class PBKDF2SHAHandler(PasswordHasher):
         return generate_salt_by_entropy(entropy_bits=self._salt_entropy_bits).encode()
 
     def needs_update(self, hash: StrOrBytes) -> bool:
-        hash_info = inspect_pbkdf2_hash(hash=as_str(hash), cls=self.HASH_INFO_CLS)
+        hash_info = inspect_pbkdf2_hash(hash=hash_as_str(hash), cls=self.HASH_INFO_CLS)
         if not hash_info:
             return True
         return hash_info.rounds != self._rounds
